@@ -19,7 +19,9 @@ The model mirrors the Go code function by function, quirks included:
 
 Go maps are association lists iterated in list order (DESIGN §2.2).  Recursion takes a depth fuel
 because `mergeDependsOn` / `mergeNetworks` / `mergeIPAMConfig` first *convert* a list into a mapping
-(not a sub-term of the override).  Every theorem in `Props/C04.lean` holds for every fuel.
+(not a sub-term of the override); `mergeYaml` is structurally recursive on that fuel and hands
+`mergeYaml fuel` to the (structurally recursive) loops, so everything reduces in the kernel.
+Every theorem in `Props/C04.lean` holds for every fuel.
 -/
 namespace CV.Merge
 open CV CV.Val
@@ -236,86 +238,26 @@ def listSet {α : Type} : List α → Nat → α → List α
   | _ :: r, 0, x => x :: r
   | a :: r, n + 1, x => a :: listSet r n x
 
-mutual
-/-- `mergeYaml(e, o, p)` -/
-def mergeYaml (fuel : Nat) (e o : Val) (p : TPath) : Out Val :=
-  match fuel with
-  | 0 => .panic "fuel"
-  | fuel + 1 =>
-    match ruleAt p with
-    | some .toSeq => .ok (.seq (seqOf e ++ seqOf o))
-    | some .override => .ok o
-    | some .ulimit =>
-      match o with
-      | .map kvs => (mergeKVs fuel kvs kvs p).bind fun m => .ok (.map m)
-      | _ => .ok o
-    | some .extraHosts =>
-      match keepNew (seqOf e) (seqOf o) with
-      | none => .panic "override.mergeExtraHosts"
-      | some l => .ok (.seq (seqOf e ++ l))
-    | some .dependsOn =>
-      (intoMap dependsOnDefault e).bind fun r =>
-      (intoMap dependsOnDefault o).bind fun l =>
-      mergeOptMaps fuel r l p
-    | some .networks =>
-      (intoMap .null e).bind fun r =>
-      (intoMap .null o).bind fun l =>
-      mergeOptMaps fuel r l p
-    | some .build => mergeOptMaps fuel (toBuild e) (toBuild o) p
-    | some .logging =>
-      match e, o with
-      | .map config, .map other =>
-        let d := lookup "driver" other
-        let c := lookup "driver" config
-        match ifaceEq (d.getD .null) (c.getD .null) with
-        | none => .panic "override.mergeLogging"
-        | some eq =>
-          if eq || d.isNone || c.isNone then (mergeKVs fuel config other p).bind fun m => .ok (.map m)
-          else .ok o
-      | _, _ => .panic "override.mergeLogging"
-    | some .ipam =>
-      match e with
-      | .seq cs => ipamOuter fuel cs o ⟨[], none⟩ p
-      | _ => .panic "override.mergeIPAMConfig"
-    | some .unknown => .err "unknown-merger"
-    | none =>
-      match o with
-      | .null => .ok e
-      | _ =>
-        match e, o with
-        | .map a, .map b => (mergeKVs fuel a b p).bind fun m => .ok (.map m)
-        | .map _, _ => .err "cannotOverride"
-        | .seq a, .seq b => .ok (.seq (a ++ b))
-        | .seq _, _ => .err "cannotOverride"
-        | _, _ => .ok o
-/-- `mergeMappings` on possibly-nil maps: a store into a nil map panics -/
-def mergeOptMaps (fuel : Nat) : Option KVs → Option KVs → TPath → Out Val
-  | some a, some b, p => (mergeKVs fuel a b p).bind fun m => .ok (.map m)
-  | some a, none, _ => .ok (.map a)
-  | none, some (_ :: _), _ => .panic "override.mergeMappings"
-  | none, _, _ => .ok (.map [])
-/-- `mergeMappings(mapping, other, p)`: `for k, v := range other {…}` in list order -/
-def mergeKVs (fuel : Nat) : KVs → KVs → TPath → Out KVs
+/-- `mergeMappings(mapping, other, p)`: `for k, v := range other {…}` in list order; `f` is the recursive
+`mergeYaml` call (one level less fuel) -/
+def mergeKVsWith (f : Val → Val → TPath → Out Val) : KVs → KVs → TPath → Out KVs
   | a, [], _ => .ok a
   | a, (k, v) :: r, p =>
     match lookup k a with
-    | none => mergeKVs fuel (insert k v a) r p
+    | none => mergeKVsWith f (insert k v a) r p
     | some e =>
-      if hasXPrefix k then mergeKVs fuel (insert k v a) r p
-      else (mergeYaml fuel e v (next p k)).bind fun m => mergeKVs fuel (insert k m a) r p
-/-- outer loop of `mergeIPAMConfig`: `for _, original := range c.([]any)` -/
-def ipamOuter (fuel : Nat) : List Val → Val → IpamSt → TPath → Out Val
-  | [], _, st, _ => .ok (.seq (st.configs.map fun e => .map (st.entry e)))
-  | original :: rest, o, st, p =>
-    (intoMap .null original).bind fun right =>
-    match o with
-    | .seq os =>
-      (ipamInner fuel os ⟨st.configs, right⟩ p).bind fun st' =>
-      -- `right` goes out of scope: the entries aliasing it are frozen
-      ipamOuter fuel rest o ⟨st'.configs.map fun e => some (st'.entry e), none⟩ p
-    | _ => .panic "override.mergeIPAMConfig"
+      if hasXPrefix k then mergeKVsWith f (insert k v a) r p
+      else (f e v (next p k)).bind fun m => mergeKVsWith f (insert k m a) r p
+
+/-- `mergeMappings` on possibly-nil maps: a store into a nil map panics -/
+def mergeOptMapsWith (mk : KVs → KVs → TPath → Out KVs) : Option KVs → Option KVs → TPath → Out Val
+  | some a, some b, p => (mk a b p).bind fun m => .ok (.map m)
+  | some a, none, _ => .ok (.map a)
+  | none, some (_ :: _), _ => .panic "override.mergeMappings"
+  | none, _, _ => .ok (.map [])
+
 /-- inner loop of `mergeIPAMConfig`: `for _, override := range o.([]any)` -/
-def ipamInner (fuel : Nat) : List Val → IpamSt → TPath → Out IpamSt
+def ipamInnerWith (mk : KVs → KVs → TPath → Out KVs) : List Val → IpamSt → TPath → Out IpamSt
   | [], st, _ => .ok st
   | ov :: rest, st, p =>
     (intoMap .null ov).bind fun left =>
@@ -324,7 +266,7 @@ def ipamInner (fuel : Nat) : List Val → IpamSt → TPath → Out IpamSt
     | some same =>
       let doMerge : Unit → Out IpamSt := fun _ =>
         (match st.right, left with
-          | some a, some b => (mergeKVs fuel a b p).bind fun m => .ok (some m)
+          | some a, some b => (mk a b p).bind fun m => .ok (some m)
           | some a, none => .ok (some a)
           | none, some (_ :: _) => .panic "override.mergeMappings"
           | none, _ => .ok none : Out (Option KVs)).bind fun merged =>
@@ -333,15 +275,95 @@ def ipamInner (fuel : Nat) : List Val → IpamSt → TPath → Out IpamSt
         let entry : Option KVs := match merged with | none => some [] | some _ => none
         match ipamIndex st1 (subnetOf merged) st1.configs 0 with
         | none => .panic "override.mergeIPAMConfig"
-        | some (some i) => ipamInner fuel rest ⟨listSet st1.configs i entry, merged⟩ p
-        | some none => ipamInner fuel rest ⟨st1.configs ++ [entry], merged⟩ p
+        | some (some i) => ipamInnerWith mk rest ⟨listSet st1.configs i entry, merged⟩ p
+        | some none => ipamInnerWith mk rest ⟨st1.configs ++ [entry], merged⟩ p
       if same then doMerge ()
       else
         match ipamIndex st (subnetOf left) st.configs 0 with
         | none => .panic "override.mergeIPAMConfig"
-        | some none => ipamInner fuel rest ⟨st.configs ++ [some (left.getD [])], st.right⟩ p
+        | some none => ipamInnerWith mk rest ⟨st.configs ++ [some (left.getD [])], st.right⟩ p
         | some (some _) => doMerge ()
-end
+
+/-- outer loop of `mergeIPAMConfig`: `for _, original := range c.([]any)` -/
+def ipamOuterWith (mk : KVs → KVs → TPath → Out KVs) : List Val → Val → IpamSt → TPath → Out Val
+  | [], _, st, _ => .ok (.seq (st.configs.map fun e => .map (st.entry e)))
+  | original :: rest, o, st, p =>
+    (intoMap .null original).bind fun right =>
+    match o with
+    | .seq os =>
+      (ipamInnerWith mk os ⟨st.configs, right⟩ p).bind fun st' =>
+      -- `right` goes out of scope: the entries aliasing it are frozen
+      ipamOuterWith mk rest o ⟨st'.configs.map fun e => some (st'.entry e), none⟩ p
+    | _ => .panic "override.mergeIPAMConfig"
+
+/-- `mergeLogging` -/
+def loggingStep (mk : KVs → KVs → TPath → Out KVs) (e o : Val) (p : TPath) : Out Val :=
+  match e, o with
+  | .map config, .map other =>
+    let d := lookup "driver" other
+    let c := lookup "driver" config
+    match ifaceEq (d.getD .null) (c.getD .null) with
+    | none => .panic "override.mergeLogging"
+    | some eq =>
+      if eq || d.isNone || c.isNone then (mk config other p).bind fun m => .ok (.map m)
+      else .ok o
+  | _, _ => .panic "override.mergeLogging"
+
+/-- the default rules of `mergeYaml` (no special merger at the path) -/
+def defaultStep (mk : KVs → KVs → TPath → Out KVs) (e o : Val) (p : TPath) : Out Val :=
+  match o with
+  | .null => .ok e
+  | _ =>
+    match e, o with
+    | .map a, .map b => (mk a b p).bind fun m => .ok (.map m)
+    | .map _, _ => .err "cannotOverride"
+    | .seq a, .seq b => .ok (.seq (a ++ b))
+    | .seq _, _ => .err "cannotOverride"
+    | _, _ => .ok o
+
+/-- one application of a special merger -/
+def specialStep (mk : KVs → KVs → TPath → Out KVs) (r : Rule) (e o : Val) (p : TPath) : Out Val :=
+  match r with
+  | .toSeq => .ok (.seq (seqOf e ++ seqOf o))
+  | .override => .ok o
+  | .ulimit =>
+    match o with
+    | .map kvs => (mk kvs kvs p).bind fun m => .ok (.map m)
+    | _ => .ok o
+  | .extraHosts =>
+    match keepNew (seqOf e) (seqOf o) with
+    | none => .panic "override.mergeExtraHosts"
+    | some l => .ok (.seq (seqOf e ++ l))
+  | .dependsOn =>
+    (intoMap dependsOnDefault e).bind fun r =>
+    (intoMap dependsOnDefault o).bind fun l =>
+    mergeOptMapsWith mk r l p
+  | .networks =>
+    (intoMap .null e).bind fun r =>
+    (intoMap .null o).bind fun l =>
+    mergeOptMapsWith mk r l p
+  | .build => mergeOptMapsWith mk (toBuild e) (toBuild o) p
+  | .logging => loggingStep mk e o p
+  | .ipam =>
+    match e with
+    | .seq cs => ipamOuterWith mk cs o ⟨[], none⟩ p
+    | _ => .panic "override.mergeIPAMConfig"
+  | .unknown => .err "unknown-merger"
+
+/-- the body of `mergeYaml`: a special merger if a row of the table matches the path, else the default rules;
+`mk` is `mergeMappings` with the recursive call inside -/
+def mergeStep (mk : KVs → KVs → TPath → Out KVs) (e o : Val) (p : TPath) : Out Val :=
+  match ruleAt p with
+  | some r => specialStep mk r e o p
+  | none => defaultStep mk e o p
+
+/-- `mergeYaml(e, o, p)`; structural recursion on the fuel -/
+def mergeYaml : Nat → Val → Val → TPath → Out Val
+  | 0, _, _, _ => .panic "fuel"
+  | fuel + 1, e, o, p => mergeStep (mergeKVsWith (mergeYaml fuel)) e o p
+
+/-- `mergeMappings(mapping, other, p)` with `fuel` levels of recursion left below it -/
+def mergeKVs (fuel : Nat) : KVs → KVs → TPath → Out KVs := mergeKVsWith (mergeYaml fuel)
 
 /-! nesting depth of a tree (used only to pick a fuel) -/
 mutual
